@@ -858,6 +858,7 @@ let join_matches = query_context.join_map.get_rhs(__RBQLMP__lhs_join_var_express
 for (let join_match of join_matches) {
     let [bNR, bNF, record_b] = join_match;
     let star_fields = record_a.concat(record_b);
+    query_context.unnest_list = null; // UNNEST is evaluated once per joined pair
     __CODE__
     if (stop_flag)
         break;
